@@ -15990,8 +15990,15 @@ gcry_error_t CallasDonnerhackeFinneyShawThayerRFC4880::AsymmetricSignECDSA
 	gcry_error_t ret;
 	size_t buflen = 0, erroff;
 
+	// If the hash value is longer than the order of the curve, only its
+	// leftmost octets are used (cf. FIPS 186-4, section 6.4); libgcrypt does
+	// not truncate a raw value itself.
+	size_t trunclen = (gcry_pk_get_nbits(key) + 7) / 8;
+	if (trunclen == 0)
+		trunclen = in.size();
 	memset(buf, 0, sizeof(buf));
-	for (size_t i = 0; ((i < in.size()) && (i < sizeof(buf))); i++, buflen++)
+	for (size_t i = 0; ((i < in.size()) && (i < sizeof(buf)) &&
+	                    (i < trunclen)); i++, buflen++)
 		buf[i] = in[i];
 	ret = gcry_sexp_build(&sigdata, &erroff,
 		"(data (flags raw) (value %b))", (int)buflen, buf);
@@ -16110,8 +16117,14 @@ gcry_error_t CallasDonnerhackeFinneyShawThayerRFC4880::AsymmetricVerifyECDSA
 	gcry_sexp_t sigdata, signature;
 	gcry_error_t ret;
 	size_t buflen = 0, erroff;
+	// If the hash value is longer than the order of the curve, only its
+	// leftmost octets are used (cf. FIPS 186-4, section 6.4).
+	size_t trunclen = (gcry_pk_get_nbits(key) + 7) / 8;
+	if (trunclen == 0)
+		trunclen = in.size();
 	memset(buf, 0, sizeof(buf));
-	for (size_t i = 0; ((i < in.size()) && (i < sizeof(buf))); i++, buflen++)
+	for (size_t i = 0; ((i < in.size()) && (i < sizeof(buf)) &&
+	                    (i < trunclen)); i++, buflen++)
 		buf[i] = in[i];
 	ret = gcry_sexp_build(&sigdata, &erroff,
 		"(data (flags raw) (value %b))", (int)buflen, buf);
